@@ -17,7 +17,7 @@ VERIF_FAIL = re.compile(
     r'cannot prove that call to.*|function body check:.*|'
     r'loop ensures clause not satisfied.*|at the break, loop ensures not satisfied|'
     r'.*arithmetic.*overflow.*|constructed value may fail.*|'
-    r'could not show termination.*)$')
+    r'could not show termination.*|precondition not met.*|unable to prove post-condition of closure.*|.*closure.*not satisfied.*)$')
 RLIMIT = re.compile(r'(Resource limit|rlimit|timed out|solver error|incomplete)', re.I)
 
 
@@ -52,7 +52,7 @@ class GenMap:
 
     def label_at(self, l0, l1):
         for i in range(l0, min(l1, len(self.lines)) + 1):
-            m = re.search(r'/\*@L:([^*]+)\*/', self.lines[i - 1])
+            m = re.search(r'/\*@L:((?:[^*])+)\*/', self.lines[i - 1])
             if m:
                 return m.group(1)
             if '/*@U*/' in self.lines[i - 1]:
